@@ -4,6 +4,7 @@
 #![allow(clippy::all)]
 mod sexp;
 mod semver;
+mod ranges;
 
 use std::io::{BufRead, Write};
 
@@ -54,6 +55,7 @@ fn main() {
             let sx = sexp::parse(case).expect("malformed case");
             let obs = match domain {
                 "semver" => semver::eval(&sx),
+                "ranges" | "rangeord" | "rangeq" => ranges::eval(&sx),
                 _ => panic!("unknown domain"),
             };
             out.emit(case, &obs);
@@ -65,6 +67,7 @@ fn main() {
         let mut rng = Rng(seed ^ 0x5851F42D4C957F2D);
         match domain {
             "semver" => semver::generate(&mut out, &mut rng, thorough),
+            "ranges" | "rangeord" | "rangeq" => ranges::generate(&mut out, &mut rng, thorough, domain),
             _ => panic!("unknown domain"),
         }
     }
